@@ -202,6 +202,15 @@ def eval_doc(case):
     evals = 0
     try:
         node = yaml.compose(text)
+        # the loaders read the document behind a directive line in half of the cases (a pure function of the text): the
+        # construction rules are the YAML 1.1 ones whatever the %YAML directive says
+        from vlib.runner import h64
+        header = ["", "", "%YAML 1.1\n--- ", "%YAML 1.2\n--- ", "", "--- ", "%TAG !e! tag:example.com,2000:\n--- ", "%YAML 1.2\n%TAG ! !local-\n--- "][h64(text) % 8]
+        if header:
+            cl.add("directive:%s" % header.split()[0])
+            if "1.2" in header:
+                cl.add("directive:%YAML-1.2")
+        text = header + text
     except yaml.YAMLError as e:
         # the renderer only writes valid flow YAML; a composer error here is a generator defect, not a finding
         raise AssertionError("generated document does not compose: %r: %s" % (text, e))
@@ -308,7 +317,7 @@ def arms(tier):
 
 
 MIN_CLASS_COUNTS = {"well-shaped:with-merge": 600, "well-shaped:with-merge-list>=2": 200, "ill-shaped:unhashable key": 100}
-REQUIRED_CLASSES = ["merge", "merge:list>=2", "merge:alias", "merge:several-keys", "alias-to:map", "alias-to:maplist", "set",
+REQUIRED_CLASSES = ["directive:%YAML-1.2", "merge", "merge:list>=2", "merge:alias", "merge:several-keys", "alias-to:map", "alias-to:maplist", "set",
                     "omap", "pairs", "quoted-merge-key", "complex-key", "well-shaped:with-merge", "well-shaped:with-merge-list>=2", "dup-key"]
 
 
